@@ -56,6 +56,8 @@ pub enum Op {
     DeleteLink(u32, i32, i32),
     /// sheet, range, formula, bold
     AddCf(u32, String, String),
+    /// sheet, range, formula, fill colour (a rule whose format differs from AddCf's bold)
+    AddCfFill(u32, String, String, String),
     UpdateCf(u32, u32, String, String),
     DeleteCf(u32, u32),
     RaiseCf(u32, u32),
@@ -207,6 +209,7 @@ impl Op {
             SetInternalLink(..) => "SetInternalLink",
             DeleteLink(..) => "DeleteLink",
             AddCf(..) => "AddCf",
+            AddCfFill(..) => "AddCfFill",
             UpdateCf(..) => "UpdateCf",
             DeleteCf(..) => "DeleteCf",
             RaiseCf(..) => "RaiseCf",
@@ -345,6 +348,15 @@ impl Op {
             ),
             DeleteLink(s, r, c) => um.delete_cell_link(*s, *r, *c),
             AddCf(s, range, f) => um.add_conditional_formatting(*s, range, cf_rule(f)?),
+            AddCfFill(s, range, f, color) => {
+                let mut dxf = ironcalc_base::types::Dxf::default();
+                dxf.fill = Some(ironcalc_base::types::Fill { color: color_of(color) });
+                um.add_conditional_formatting(
+                    *s,
+                    range,
+                    CfRuleInput::Formula { formula: f.clone(), format: dxf, stop_if_true: false },
+                )
+            }
             UpdateCf(s, i, range, f) => um.update_conditional_formatting(*s, *i, range, cf_rule(f)?),
             DeleteCf(s, i) => um.delete_conditional_formatting(*s, *i),
             RaiseCf(s, i) => um.raise_conditional_formatting_priority(*s, *i),
